@@ -29,6 +29,7 @@ func (e *Exec) walkModel(st *State, name string, sig *types.Signature, args []Va
 	ord, _ := e.loopKeyFor(x, hdr)
 	li := &loopInfo{key: ord, invs: e.findInvs(ord, hdr), pos: x.Pos()}
 	li.assigned, li.heapW = e.assignedIn(cb.Fn.Lit.Body)
+	li.heapNames = e.takeHeapNames()
 	errT := errorType()
 	werr := e.synthVar("walkerr", errT)
 	st.vars[werr] = Val{T: IntLit(0), GT: errT}
